@@ -51,6 +51,23 @@ class Lit(V):
         return ('lit', self.value)
 
 
+class ShamtReg(V):
+    """A shift amount spelled as a register name (the field is parsed like a register, so `slli x8, x8, t0`
+    is accepted and means a shift by 5)."""
+
+    def __init__(self, n):
+        self.n = n
+
+    def eval(self, ctx):
+        return self.n
+
+    def render(self, st):
+        return ABI[self.n] if st.pick(2, 'shamtreg') else 'x%d' % self.n
+
+    def key(self):
+        return ('shamtreg', self.n)
+
+
 class CRef(V):
     const_dep = True
 
